@@ -267,6 +267,37 @@ class Selector:
             out[acc] = (bn.mk_or([c for c, _ in items]), next(iter(kinds)))
         return out
 
+    def path_condition(self, fi: FuncInfo, loop: ast.For, stmt: ast.AST, subst) -> object:
+        """Formula (over the canonical element) under which `stmt`, somewhere in the body of `loop`, is executed in an
+        iteration: if/else nesting and `continue` guards are followed; any other jump gives up."""
+        s2 = self.bind_target(loop.target, subst)
+        for n in ast.walk(loop):
+            if isinstance(n, ast.Assign) and isinstance(n.targets[0], ast.Tuple) and isinstance(loop.target, ast.Name) and norm(n.value) == loop.target.id:
+                for i, x in enumerate(n.targets[0].elts):
+                    if isinstance(x, ast.Name):
+                        s2[x.id] = ast.Subscript(value=ast.Name(id=T, ctx=ast.Load()), slice=ast.Constant(value=i), ctx=ast.Load())
+        found = []
+
+        def walk(stmts, cond):
+            for i, st in enumerate(stmts):
+                if st is stmt or any(x is stmt for x in ast.walk(st)) and not isinstance(st, ast.If):
+                    found.append(cond)
+                    return
+                if isinstance(st, ast.If):
+                    f = self.formula(fi, st.test, st.test, s2)
+                    rest = stmts[i + 1:]
+                    walk(st.body + rest, bn.mk_and([cond, f]))
+                    walk(st.orelse + rest, bn.mk_and([cond, bn.mk_not(f)]))
+                    return
+                if isinstance(st, ast.Continue):
+                    return
+                if isinstance(st, (ast.Break, ast.Return, ast.Raise)):
+                    raise AnalysisError(f'{fi.fq}: path condition: jump out of the loop')
+        walk(loop.body, True)
+        if not found:
+            raise AnalysisError(f'{fi.fq}: path condition: statement not found in the loop body')
+        return bn.mk_or(found)
+
     def _loop(self, fi: FuncInfo, loop: ast.For, subst, env):
         inner = self.of_expr(fi, loop.iter, loop, subst, env)
         for acc, (pred, kind) in self.loop_predicates(fi, loop, subst).items():
